@@ -61,10 +61,10 @@ func (vm *VM) exec(f *frame, in instr) {
 		// "Converts the 4-bytes offset to a Pointer, and pushes it onto the
 		// stack": position < 0 or > Script.Length faults.
 		pos := f.ip + i32(arg)
-		if pos < 0 || pos > len(vm.Script) {
+		if pos < 0 || pos > len(f.script) {
 			fault("PUSHA: bad pointer %d", pos)
 		}
-		vm.push(mkPointer(pos))
+		vm.push(mkPointer(pos, f.sid))
 	case op == PUSHNULL:
 		vm.push(mkNull())
 	case op == PUSHDATA1, op == PUSHDATA2, op == PUSHDATA4:
@@ -119,7 +119,7 @@ func (vm *VM) exec(f *frame, in instr) {
 		target := f.ip + off
 		if cond {
 			vm.jump(f, target)
-		} else if target < 0 || target > len(vm.Script) {
+		} else if target < 0 || target > len(f.script) {
 			// The reference evaluates the target only when the jump is taken.
 			// Whether a not-taken jump with a target outside the script is an
 			// error is not stated anywhere we can cite.
@@ -135,7 +135,31 @@ func (vm *VM) exec(f *frame, in instr) {
 		if p.T != TPointer {
 			fault("CALLA: not a Pointer")
 		}
+		// "x.Script != CurrentContext.Script => InvalidOperationException"
+		if p.Sid != f.sid {
+			fault("CALLA: pointer into another script")
+		}
 		vm.call(f, p.Pos)
+	case op == SYSCALL && vm.Scripts != nil:
+		// The check's miniature host (NOT NeoVM semantics, the same service
+		// is installed as SyscallHandler in the implementation): service id
+		// pops one item, loads Scripts[id] as a new context with its own
+		// evaluation stack holding that item and with return-value count
+		// RV[id]; an unknown id is an error of the service (fault). What IS
+		// NeoVM semantics, and is under test, is everything that follows:
+		// LoadContext's invocation-stack limit, RET copying the evaluation
+		// stack to the caller's ("RVCount doesn't match" fault), exception
+		// unwinding across contexts with different stacks, static fields and
+		// pointers belonging to one script.
+		id := int(uint32(i32(arg)))
+		if id < 0 || id >= len(vm.Scripts) {
+			fault("SYSCALL: unknown service")
+		}
+		a := vm.pop()
+		if len(vm.frames) >= MaxInvocationStackSize {
+			fault("MaxInvocationStackSize exceeded")
+		}
+		vm.frames = append(vm.frames, &frame{script: vm.Scripts[id], sid: id, rv: vm.RV[id], sh: &shared{stack: []*Item{a}}})
 	case op == CALLT, op == SYSCALL:
 		// External effects: out of the scope of the property. A bare engine
 		// has neither tokens nor interop services: fault.
@@ -193,7 +217,7 @@ func (vm *VM) exec(f *frame, in instr) {
 			t.finallyPtr = f.ip + fo
 		}
 		for _, o := range []int{co, fo} {
-			if p := f.ip + o; o != 0 && (p < 0 || p >= len(vm.Script)) {
+			if p := f.ip + o; o != 0 && (p < 0 || p >= len(f.script)) {
 				// The reference stores the pointers unchecked and validates
 				// them when (and if) control is transferred there.
 				vm.undet("TRY-with-handler-outside-script")
@@ -219,7 +243,7 @@ func (vm *VM) exec(f *frame, in instr) {
 		}
 		end := f.ip + off
 		if t.finallyPtr >= 0 {
-			if end < 0 || end >= len(vm.Script) {
+			if end < 0 || end >= len(f.script) {
 				vm.undet("ENDTRY-target-outside-script-before-finally")
 			}
 			t.state = inFinally
@@ -564,6 +588,9 @@ func (vm *VM) exec(f *frame, in instr) {
 		// neo-go docs/node-configuration.md, "Gorgon").
 		n := vm.popInt32()
 		assertShift(n)
+		if n == 0 && vm.PreGorgon {
+			return // "if (shift == 0) return;" - the operand stays as it is
+		}
 		x := vm.popInteger()
 		if op == SHL {
 			vm.pushInt(dnShiftLeft(x, n))
@@ -758,7 +785,7 @@ func (vm *VM) exec(f *frame, in instr) {
 			if i < 0 {
 				fault("HASKEY: negative index")
 			}
-			if i >= MaxItemSize {
+			if i >= MaxItemSize && !vm.PreGorgon {
 				// "Adds bounds check for index of HASKEY" (Gorgon): the
 				// exact bound of the reference is not known to us.
 				vm.undet("HASKEY-index-at-or-above-MaxItemSize")
